@@ -1437,7 +1437,7 @@ class mulgrid(object):
             if self.atmosphere_type == 1: midelev = lay.centre
             else: return None
         else:
-            if (lay.bottom < col.surface <= lay.top):
+            if (lay.bottom < col.surface < lay.top):
                 midelev = 0.5 * (lay.bottom + col.surface)
             else: 
                 if col.surface <= lay.bottom: return None # outside grid
